@@ -190,3 +190,40 @@ func VH_C11_deadlineCtx() {
 	Run(ctx, b, NewSharedStore())
 	vCover("deadline-context-cancelled-explicitly")
 }
+
+// a post that honours its context (returns ctx.Err() when the context is done): after a cancellation
+// post is called at most once, and the run either returns an error matching the context's error or
+// reports what that one post call returned
+func VH_C11_postHonoursCtx() {
+	vUnwind(12)
+	ctx := vNewRunCtx("run")
+	pre := vNondet[bool]("cancelBeforeRun")
+	if pre {
+		ctx.cancel(false)
+	}
+	posts := 0
+	b := NewBatchNode().WithBatchConcurrency(vChoice("concurrency", 2)).WithBatchErrorHandling(vNondet[bool]("continue")).
+		WithPrepFunc(func(ctx context.Context, s *SharedStore) ([]Result, error) { return bItems(2), nil }).
+		WithExecFunc(func(c context.Context, it Result) (Result, error) {
+			if !pre && bIndex(it) == 0 {
+				ctx.cancel(false)
+			}
+			return it, nil
+		}).
+		WithPostFunc(func(c context.Context, s *SharedStore, items, results []Result) (Action, error) {
+			vMon(func() { posts++ })
+			if err := c.Err(); err != nil {
+				return "", err
+			}
+			return "done", nil
+		})
+	_, err := Run(ctx, b, NewSharedStore())
+	vAssert(posts <= 1, "otherwise-post-is-called-exactly-once")
+	if err != nil {
+		vCover("run-returns-error")
+		vAssert(errors.Is(err, ctx.Err()), "error-matches-the-contexts-error")
+	} else {
+		vAssert(posts == 1, "otherwise-post-is-called-exactly-once")
+	}
+	vCover("post-honours-its-context")
+}
